@@ -145,6 +145,10 @@ func PanicCustom(code int) string {
 	record("PanicCustom", code)
 	panic(panicValue{code, "custom panic value"})
 }
+func PanicNil(code int) int {
+	record("PanicNil", code)
+	panic(nil)
+}
 func PanicRuntime(i int) int {
 	record("PanicRuntime", i)
 	if i%2 == 0 {
